@@ -16,6 +16,7 @@
    into an already dead row - not modelled (fusion_domain is evaluated per case).
    Executable definitions only. *)
 From Coq Require Import List Bool ZArith QArith Arith.
+From NV.Generated Require Import ClusteringFrags.
 Import ListNotations.
 
 Definition edge := (Z * Z * Q)%type.
@@ -24,9 +25,9 @@ Definition e_src (e : edge) : Z := fst (fst e).
 Definition e_dst (e : edge) : Z := snd (fst e).
 Definition e_w (e : edge) : Q := snd e.
 
-(* l.251-252 *)
-Definition fus_fi (pi pk : Z) : Q := inject_Z pi / inject_Z pk.
-Definition fus_fj (pi pk : Z) : Q := 1 - fus_fi pi pk.
+(* l.251-252, translated from source (Generated/ClusteringFrags.v); pop[j] = pop[k] - pop[i] as in average_link_graph *)
+Definition fus_fi (pi pk : Z) : Q := src_fusion_fi (inject_Z pi) (inject_Z (pk - pi)) (inject_Z pk).
+Definition fus_fj (pi pk : Z) : Q := src_fusion_fj (inject_Z pi) (inject_Z (pk - pi)) (inject_Z pk) (fus_fi pi pk).
 
 (* l.256-258 / 265-267: rows whose column 0 is x: weight * f, column 0 := k *)
 Definition scale_src (x k : Z) (f : Q) (e : edge) : edge :=
